@@ -403,7 +403,7 @@ Proof.
     destruct (iget st sid) as [[k r]|] eqn:Ei.
     + unf. cbn [s_popen s_state set_state] in Hs. peel Hs; use_res1 Hs;
         (split; [intros; first [apply same_or_failed_refl | apply drop_put_other; auto] | reflexivity]).
-    + destruct (negb (is_server (c_role st)) && may_have_forgotten st sid); [use_res1 Hs; split; auto; intros; apply same_or_failed_refl|].
+    + destruct ((negb (is_server (c_role st)) || h_no_method o) && may_have_forgotten st sid); [use_res1 Hs; split; auto; intros; apply same_or_failed_refl|].
       pose proof (recv_open_id_slab st sid false (h_can_open o)) as Ho.
       destruct (recv_open_id st sid false (h_can_open o)) as [e|st1|st1|]; try discriminate.
       * use_res1 Hs; split; auto; intros; apply same_or_failed_refl.
